@@ -164,6 +164,20 @@ def rules(ck, P):
         has_true = any(v in ("true", "1", "yes") for v in lits)
         ck.check(has_true and has_false and bool(errs), "R-REQ", b["q"] + "|mistyped", "boolean parameters accept spellings of true and of false (%s) and reject everything else with an error" % lits,
                  "a boolean parameter with a value that is neither a spelling of true nor of false (accepted literals: %s) is not rejected: `fast=maybe` silently means false" % lits, ir.loc(b))
+    gp = [x for x in P.bodies if x["q"].endswith("vpl::vpl_node::VPLNode::get_property")]
+    if ck.anchor("R-REQ", "VPLNode::get_property", gp, 1):
+        b = gp[0]
+        oks = False
+        for y in ir.walk_nodes(b["body"]):
+            if y.get("k") == "if" and ir.diverges(y["then"]):
+                c = ir.cmp_norm(y["c"])
+                # ensure!(list.len() == 1) expands to `if !(len == 1) { return Err }`
+                if c is not None and "len()" in c[0] + c[2] and ((c[1] == "!=" and "1" in (c[0], c[2])) or (c[1] in ("<", ">") and False)):
+                    oks = True
+        users = [x["q"] for x in P.bodies if x.get("self_adt") == b.get("self_adt") and x["q"] != b["q"] and
+                 ir.contains(x["body"], lambda y: y.get("k") == "mcall" and (y.get("q") or "") == b["q"])]
+        ck.check(oks and len(users) >= 3, "R-REQ", b["q"] + "|scalar", "a scalar parameter must have exactly one entry (a list where a scalar is expected is an error); %d typed accessors go through it" % len(users),
+                 "scalar access does not insist on exactly one entry: `min=[1,2]` or a repeated key is silently reduced to one value", ir.loc(b))
     # ---------------- R-UNKNOWN-OP
     for fn, reg in (("read_operation_from_node", "read_ops"), ("tran_operation_from_node", "tran_ops")):
         fb = [x for x in P.bodies if x["q"].endswith("PipelineFactory::" + fn)]
